@@ -56,6 +56,8 @@ pub fn run(seed: u64, ntraces: usize) {
         if t % 3 == 1 && operator.is_some() { forced = vec![(7, 14), (8, 41), (6, 41), (8, 41), (7, 13), (7, 14), (8, 31), (8, 41), (8, 41)]; }
         // directed: the operator takes the flow-limiter role away from the service, which then tries to move the limit (kinds 3/4/5: 10*caller + target)
         if t % 3 == 2 && operator.is_some() && cur_token.is_some() { forced = vec![(2, 30), (4, 10), (2, 1000), (0, 500), (0, 30), (3, 13), (2, 1000), (5, 13), (2, 7)]; }
+        // directed (native managers): issuance, then the minter calls deployInterchainToken again naming someone else; or a failed issuance retried by the minter
+        if ty == 0 { let extra: Vec<(u64, u64)> = if t % 2 == 0 { vec![(14, 2), (16, 1), (12, 24), (14, 24), (16, 1), (12, 43), (9, 23), (14, 34)] } else { vec![(14, 2), (16, 0), (14, 24), (16, 1), (12, 24), (14, 3)] }; forced.extend(extra); }
         for _ in 0..(nops + forced.len()) {
             now += if !forced.is_empty() { 1 } else { match r.below(8) { 0 => EPOCH_TIME, 1 => EPOCH_TIME - (now % EPOCH_TIME), 2 => (EPOCH_TIME - (now % EPOCH_TIME)).saturating_sub(1), _ => r.below(500) } };
             w.set_time(now);
@@ -111,8 +113,8 @@ pub fn run(seed: u64, ntraces: usize) {
                     opj = json!({"op": name, "caller": hx(caller.as_bytes()), "a": hx(a.as_bytes())});
                 }
                 12 => {
-                    let caller = if r.chance(1, 2) { m.clone() } else { anyone.clone() };
-                    let a = r.pick(&users).clone(); let v = 1 + r.below(100);
+                    let (caller, a) = if let Some((_, ca)) = fo { (users[(ca / 10) as usize].clone(), users[(ca % 10) as usize].clone()) } else { (if r.chance(1, 2) { m.clone() } else { anyone.clone() }, r.pick(&users).clone()) };
+                    let v = 1 + r.below(100);
                     step = w.tx(&caller, &tmaddr, "mint", vec![a.to_vec(), big(v)], &bn(0), &[]);
                     opj = json!({"op": "mint", "caller": hx(caller.as_bytes()), "a": hx(a.as_bytes()), "amount": v.to_string()});
                 }
@@ -125,11 +127,11 @@ pub fn run(seed: u64, ntraces: usize) {
                     opj = json!({"op": "burn", "caller": hx(caller.as_bytes()), "egld": "0", "esdt": esdt.iter().map(|(t, n, v)| json!([hx(t), n, v.to_string()])).collect::<Vec<_>>()});
                 }
                 14 => { // deployInterchainToken by service / minter / stranger
-                    let caller = match r.below(4) { 0 => anyone.clone(), 1 => m.clone(), _ => s.clone() };
-                    let minter: Option<VMAddress> = match r.below(3) { 0 => None, 1 => Some(m.clone()), _ => Some(r.pick(&users).clone()) };
-                    let name = if r.chance(1, 8) { vec![] } else { b"Name".to_vec() };
-                    let symbol = if r.chance(1, 8) { vec![] } else { b"SYM".to_vec() };
-                    let egld = if r.chance(3, 4) { ISSUE_COST } else { 0 };
+                    let caller = if let Some((_, ca)) = fo { users[(ca / 10) as usize].clone() } else { match r.below(4) { 0 => anyone.clone(), 1 => m.clone(), _ => s.clone() } };
+                    let minter: Option<VMAddress> = if let Some((_, ca)) = fo { Some(users[(ca % 10) as usize].clone()) } else { match r.below(3) { 0 => None, 1 => Some(m.clone()), _ => Some(r.pick(&users).clone()) } };
+                    let name = if fo.is_none() && r.chance(1, 8) { vec![] } else { b"Name".to_vec() };
+                    let symbol = if fo.is_none() && r.chance(1, 8) { vec![] } else { b"SYM".to_vec() };
+                    let egld = if fo.is_some() || r.chance(3, 4) { ISSUE_COST } else { 0 };
                     let marg = match &minter { None => vec![], Some(a) => { let mut v = vec![1u8]; v.extend_from_slice(a.as_bytes()); v } };
                     step = w.tx(&caller, &tmaddr, "deployInterchainToken", vec![marg, name.clone(), symbol.clone(), vec![18]], &bn(egld), &[]);
                     if step.res.result_status == 0 { if let Some(ac) = step.res.pending_calls.async_call.clone() { pending.push(ac); } }
@@ -146,7 +148,7 @@ pub fn run(seed: u64, ntraces: usize) {
                     } else {
                         let i = r.below(pending.len() as u64) as usize; let ac = pending.remove(i);
                         let tm_egld = w.r.blockchain_mock.state.accounts.get(&tmaddr).unwrap().egld_balance.clone();
-                        let mut ok = r.chance(2, 3);
+                        let mut ok = if let Some((_, fv)) = fo { fv == 1 } else { r.chance(2, 3) };
                         if tm_egld < bn(ISSUE_COST) { ok = false; }
                         let newtok = format!("SYM-{:06x}", r.below(0xffffff)).into_bytes();
                         let forged = if ok {
